@@ -87,6 +87,17 @@ func SyncAddr(p unsafe.Pointer) {
 	Release(c)
 }
 
+// AcquireAddr is the acquire half of SyncAddr (atomic loads: they observe what
+// earlier atomic writes published and publish nothing themselves).
+func AcquireAddr(p unsafe.Pointer) {
+	if !s.active || s.cur == nil {
+		return
+	}
+	if c := s.addrClk[p]; c != nil {
+		Acquire(c)
+	}
+}
+
 // readAccess records a read by the current goroutine and reports a race with
 // the last writer when no happens-before edge orders write and read.
 func readAccess(loc unsafe.Pointer, kind, site string) {
